@@ -350,7 +350,14 @@ func (c *VirtualTable) Begin() error {
 		c.module.sc.txFixedWriteTime = true
 		c.module.sc.ResetContext()
 	}
-	return toSqlite(c.common.Begin(c.module.sc.ctx))
+	err := toSqlite(c.common.Begin(c.module.sc.ctx))
+	if err != nil && c.module.sc.txFixedWriteTime {
+		// SQLite calls neither Commit nor Rollback after a failed Begin
+		c.module.sc.writeTime = time.Time{}
+		c.module.sc.txFixedWriteTime = false
+		c.module.sc.ResetContext()
+	}
+	return err
 }
 
 func (c *VirtualTable) Commit() error {
